@@ -447,9 +447,12 @@ func (s *store) grid(rng *rand.Rand, rt *routeInfo) []*Req {
 				out = append(out, q)
 			}
 		}
-		q := base.clone()
-		q.Body = s.bigBody(rng, rt.bodyKind, s.r.Pick(1500, 8000))
-		out = append(out, q)
+		// absurd lengths, around the sizes at which lists get paged or capped (2000 / 2001) and beyond
+		for _, n := range []int{2000, 2001, s.r.Pick(2600, 8000)} {
+			q := base.clone()
+			q.Body = s.bigBody(rng, rt.bodyKind, n)
+			out = append(out, q)
+		}
 	} else {
 		// a body where none is expected
 		for _, b := range [][]byte{[]byte("{}"), []byte("not json"), jsonList(s.tip)} {
